@@ -30,6 +30,23 @@ DOCUMENTED_ORDER = [('Cache', '_files_lock'), ('Cache', '_subbuilds_lock'),
                     ('Cache', '_created_dirs_lock')]
 
 
+# guarded fields a class may do without, one line of reason each; what the
+# field was for is then decided by another rule
+OPTIONAL = {
+    'FileBackups': {
+        '_next_backup_index':
+            'the backup ticket may come from elsewhere (e.g. the length of '
+            '_backups); R9.7 decides that the replacement is unique',
+    },
+}
+
+
+def _mentioned(ctx, cname, fld):
+    cls = ctx.prog.classes[cname]
+    return any(isinstance(n, ast.Attribute) and n.attr == fld
+               for m in cls.methods.values() for n in ast.walk(m.node))
+
+
 def check_table(ctx):
     prog = ctx.prog
     locks = set(ctx.H.lock_attrs())
@@ -42,6 +59,8 @@ def check_table(ctx):
                 raise AnalysisError('lock %s.%s is not a threading.Lock '
                                     'assigned in a constructor' % (c, lk))
             if not ctx.H._has_attr_store(c, fld):
+                if fld in OPTIONAL.get(c, ()) and not _mentioned(ctx, c, fld):
+                    continue
                 raise AnalysisError('guarded field %s.%s vanished' % (c, fld))
             used.add((c, lk))
     return locks, used
